@@ -139,3 +139,29 @@ package config
 //@   requires p != nil
 //@   ensures result == (p.ByName[pool] == nil)
 //@   modifies nothing
+
+// ---- C08: an aggregation length never cuts inside the ranges of the pool ("prefix more specific than the aggregation") ----
+//@ func lowestMask
+//@   requires forall i int :: 0 <= i && i < len(cidrs) ==> cidrs[i] != nil
+//@   ensures [lower] forall i int :: 0 <= i && i < len(cidrs) ==> result <= net.maskOnes(cidrs[i].Mask)
+//@   ensures [attained] len(cidrs) > 0 ==> (exists i int :: 0 <= i && i < len(cidrs) && result == net.maskOnes(cidrs[i].Mask))
+//@   ensures len(cidrs) == 0 ==> result == 0
+//@   modifies nothing
+//@   loop 1 invariant len(cidrs) > 0 && (forall i int :: 0 <= i && i < iter ==> lowest <= net.maskOnes(cidrs[i].Mask)) && (exists i int :: 0 <= i && i < len(cidrs) && lowest == net.maskOnes(cidrs[i].Mask))
+
+// advertisementsAreCompatible / isAggrLengthDifferent: the local-preference collision rule is not specified here (frame only)
+//@ func advertisementsAreCompatible
+//@   trusted
+//@   modifies nothing
+
+// AggrOK: for every address entry of the pool, the aggregation length of the entry's family is not longer than the
+// shortest prefix among the entry's networks (for a range at least one of its summarising networks is aggregated whole).
+//@ pred AggrOK(adv *BGPAdvertisement, pool *Pool, addr string) := len(pool.cidrsPerAddresses[addr]) == 0 ||
+//@     (exists i int :: 0 <= i && i < len(pool.cidrsPerAddresses[addr]) &&
+//@         ite(net.is4(pool.cidrsPerAddresses[addr][0].IP), adv.AggregationLength, adv.AggregationLengthV6) >= net.maskOnes(pool.cidrsPerAddresses[addr][i].Mask))
+//@ func validateBGPAdvPerPool
+//@   requires adv != nil && pool != nil && (forall n string, i int :: (n in pool.cidrsPerAddresses) && 0 <= i && i < len(pool.cidrsPerAddresses[n]) ==> pool.cidrsPerAddresses[n][i] != nil)
+//@   requires forall j int :: 0 <= j && j < len(pool.BGPAdvertisements) ==> pool.BGPAdvertisements[j] != nil
+//@   ensures [aggregation] result == nil ==> (forall n string :: (n in pool.cidrsPerAddresses) ==> AggrOK(adv, pool, n))
+//@   modifies fresh []interface{}
+//@   loop 1 invariant forall n string :: (n in visited) ==> AggrOK(adv, pool, n)
